@@ -1083,10 +1083,12 @@ func (c *Client) resend(conn net.Conn, seqNoOffset uint, seq *seq, space uint) e
 		}
 
 		if seqNo < seq.submitN && packet[0]>>4 == typePUBLISH {
-			packet[0] |= dupeFlag
+			// The slice may be the very storage of the Persistence.
+			head := []byte{packet[0] | dupeFlag}
+			err = writeBuffersTo(conn, net.Buffers{head, packet[1:]}, c.PauseTimeout)
+		} else {
+			err = writeTo(conn, packet, c.PauseTimeout)
 		}
-
-		err = writeTo(conn, packet, c.PauseTimeout)
 		if err != nil {
 			return err
 		}
